@@ -94,6 +94,13 @@ def propagate_roles(tree, roles):
                             for b in pat_bindings(pp_):
                                 if b['id'] not in roles:
                                     roles[b['id']] = roles[rr['id']]; changed = True
+                elif recv.get('k') == 'mcall' and recv['m'] == 'enumerate' and clo['ps'] and clo['ps'][0].get('k') == 'tup' and len(clo['ps'][0]['ps']) == 2:
+                    # `X.iter_mut().enumerate().for_each(|(i, slot)| ..)`: the slot is a part of X
+                    rr = chain_root(recv['r'])
+                    if rr is not None and rr['id'] in roles:
+                        for b in pat_bindings(clo['ps'][0]['ps'][1]):
+                            if b['id'] not in roles:
+                                roles[b['id']] = roles[rr['id']]; changed = True
                 elif clo['ps']:
                     rr = chain_root(recv)
                     if rr is not None and roles.get(rr['id']) == 'FROM' and _has_drain(recv):
@@ -212,7 +219,20 @@ def check_L4(ctx, rep):
                 r, a = chain_root(x['r']), (chain_root(x['a'][0]) if x['a'] else None)
                 if r is not None and a is not None and roles.get(r['id']) == 'TO' and roles.get(a['id']) == 'FROM':
                     drained = True
-                    rep.inst('L4', '%s: whole-container %s(from) into to' % (where, x['m']))
+                    # the append happens on EVERY path through the per-slot body (closure of the zip / function body): a size swap
+                    # only exchanges the two sides, what is then in `from` still has to go into `to`
+                    scope = None
+                    for p_ in reversed(parents):
+                        if p_.get('k') == 'closure':
+                            scope = p_['b']; break
+                    if scope is None:
+                        scope = b['tree']
+                    always = must_consume(scope, roles, ('TO',), ('FROM',))
+                    rep.inst('L4', '%s: whole-container %s(from) into to, on every path: %s' % (where, x['m'], always))
+                    if not always:
+                        rep.viol('L4', where, 'append-not-on-every-path',
+                                 '`to.%s(from)` is skipped on some path (after a size swap `from` holds the former contents of `to`): that part of the '
+                                 'merge is left behind in `from`' % x['m'], loc=cr.loc(x))
         if not drained:
             rep.viol('L4', where, 'no-drain', 'move_index_contents does not drain `from` (no from.drain()/append(from))')
             continue
@@ -277,14 +297,20 @@ def check_L4(ctx, rep):
                         if p.get('k') == 'match' and strip(p['e']).get('k') == 'tup':
                             es = strip(p['e'])['es']
                             rs = {roles.get(chain_root(e)['id']) if chain_root(e) is not None else None for e in es}
-                            if rs == {'FROM', 'TO'}:
+                            # .. and what is compared are lengths (`X.len()`), not some other quantity of the two sides
+                            def is_len(e):
+                                e = strip(e)
+                                while e.get('k') in ('addr',) or (e.get('k') == 'unary' and e.get('op') == 'deref'):
+                                    e = strip(e['e'])
+                                return e.get('k') == 'mcall' and e['m'] == 'len'
+                            if rs == {'FROM', 'TO'} and all(is_len(e) for e in es):
                                 asserted = True
                             break
             rep.inst('L4', '%s: shard-wise zip guarded by an equality assertion between from and to: %s' % (where, asserted))
             if not asserted:
                 rep.viol('L4', where, 'zip-without-assert',
                          'shards of `from` and `to` are zipped without asserting that both have the same number of shards '
-                         '(zip truncates silently)')
+                         '(`X.len()` on both sides; zip truncates silently)')
     rep.floor('L4', 14, 'move_index_contents obligations')
     # default merge: total = total U delta; delta = new; new = {}
     tb = cr.bodies.get('internal::RelIndexMerge::merge_delta_to_total_new_to_delta')
@@ -863,3 +889,52 @@ def _reach_sampling(cr, b, seen, depth=0):
         if d in cr.bodies and d != b['path'] and cr.bodies[d]['name'] not in ('is_empty',):
             bad |= _reach_sampling(cr, cr.bodies[d], seen, depth + 1)
     return bad
+
+
+# ------------------------------------------------------------------ L27
+
+DROPPING_ADAPTORS = {'chunks_exact', 'par_chunks_exact', 'rchunks_exact', 'par_rchunks_exact', 'chunks_exact_mut', 'par_chunks_exact_mut',
+                     'array_chunks', 'as_chunks', 'step_by', 'take', 'skip', 'take_while', 'skip_while', 'nth', 'split_first', 'split_last',
+                     'first', 'last', 'split_at', 'get'}
+
+
+def check_L27(ctx, rep):
+    """whole-index iteration covers every shard: a function of the concurrent index types that walks the shard collection
+    (`shards()`, `.shards`, the slot vector `.vec`) to read ALL entries - iter_all / drive_unindexed / is_empty / merge / freeze -
+    passes it through no adaptor that can leave shards out (`*_chunks_exact` drops the remainder, take / skip / step_by / first ..).
+    Sampling is legitimate only in the size estimate (`len_estimate`), which is exempt by name."""
+    cr = ctx.lib('ascent')
+    n = 0
+    for path, b in sorted(cr.bodies.items()):
+        if not any(m in path for m in ('c_rel_index', 'c_rel_full_index', 'c_lat_index', 'c_rel_no_index')):
+            continue
+        if 'len_estimate' in b['name'] or b['name'].startswith('test') or b['name'] in ('hash_usize', 'get_shard', 'index_insert', 'insert_if_not_present', 'insert_if_not_present2'):
+            continue
+        for x, parents in walk(b['tree']):
+            # a chain rooted in the shard collection
+            is_src = (x.get('k') == 'mcall' and x['m'] in ('shards', 'shards_mut')) or (x.get('k') == 'field' and x['n'] in ('shards', 'vec'))
+            if not is_src:
+                continue
+            # walk outwards through the method chain
+            chain = []
+            cur = x
+            for p_ in reversed(parents):
+                if p_.get('k') == 'mcall' and strip(p_['r']) is cur or (p_.get('k') == 'mcall' and any(y is cur for y, _ in walk(p_['r']))):
+                    chain.append(p_['m']); cur = p_
+                elif p_.get('k') in ('addr', 'unary', 'paren', 'cast'):
+                    cur = p_
+                else:
+                    break
+            if not any(m in ('iter', 'par_iter', 'into_par_iter', 'iter_mut', 'par_iter_mut', 'into_iter') or 'chunks' in m for m in chain):
+                continue
+            n += 1
+            bad = [m for m in chain if m in DROPPING_ADAPTORS]
+            rep.inst('L27', '%s: walks the shard collection through %s: complete=%s' % (path, '.'.join(chain[:6]), not bad))
+            rep.functions.add(path)
+            if bad:
+                rep.viol('L27', path, 'shards-dropped:' + ','.join(bad),
+                         'the iteration over all shards passes through `%s`, which leaves shards out (remainder / prefix / suffix): keys hashed '
+                         'into those shards are never visited - the result depends on the pool size' % bad[0], loc=cr.loc(x))
+    if n < 6:
+        raise Broken('L27: only %d walks over shard collections found in the concurrent index types (anchor lost?)' % n)
+    return n
